@@ -66,3 +66,10 @@ def run(ctx, rep):
     # ... and the packet reader must be confined to the frame it decodes: a reader that can run into the bytes of the next
     # buffered frame returns a packet that was never encoded (until-EOF texts, over-claimed counts)
     c04.decode(ctx, rep)
+    # text up to the field width must come back unchanged: the shared text writer keeps the encoded text up to the field's width
+    # and appends zero bytes only (C11's R11.3: exact width / content on the writers' path tables)
+    from props import c11
+    before = len(rep.instances)
+    c11.length_domain(ctx, rep)
+    rep.instances[before:] = [i for i in rep.instances[before:] if i["rule"] == "R11.3"]
+    rep.floors.pop("R11.4", None)
